@@ -271,18 +271,31 @@ size_t mtAtomicCmpSwap(size_t* ctr, size_t cmp, size_t swap)
 
 #elif defined OS_UNIX
 
+#ifdef BEE2_VERIF
+/* verification hook: cooperative yield point before each atomic operation
+   (0 unless a simulator installs it; see /verif/DESIGN.md, H-mt) */
+void (*mtVerifYield)(int kind, const void* obj) = 0;
+#define MT_VERIF_YIELD(kind, obj)\
+	do { if (mtVerifYield) mtVerifYield(kind, obj); } while (0)
+#else
+#define MT_VERIF_YIELD(kind, obj)
+#endif
+
 size_t mtAtomicIncr(size_t* ctr)
 {
+	MT_VERIF_YIELD(1, ctr);
 	return __sync_add_and_fetch(ctr, SIZE_1);
 }
 
 size_t mtAtomicDecr(size_t* ctr)
 {
+	MT_VERIF_YIELD(2, ctr);
 	return __sync_sub_and_fetch(ctr, SIZE_1);
 }
 
 size_t mtAtomicCmpSwap(size_t* ctr, size_t cmp, size_t swap)
 {
+	MT_VERIF_YIELD(3, ctr);
 	return __sync_val_compare_and_swap(ctr, cmp, swap);
 }
 
